@@ -141,7 +141,9 @@ func C09(r *core.Run) {
 				tok := fmt.Sprintf("s%dg%di%d", r.Seed, ci, i)
 				c := c09Case{Tok: tok, Shim: cfg.shim && i%3 == 0, Identity: "user-" + tok + "@example.com"}
 				idKind := "email"
-				switch rng.Intn(9) {
+				switch rng.Intn(10) {
+				case 5:
+					c.Identity, idKind = "j\u00fcrgen-"+tok+"@ex\u00e4mple.com", "utf8"
 				case 0:
 					c.Identity, idKind = "", "empty"
 				case 1:
@@ -187,11 +189,17 @@ func C09(r *core.Run) {
 				conn := "none"
 				if rng.Intn(5) == 0 {
 					// the client nominates the identity (or credential) field as hop-by-hop
-					k := rng.Intn(4)
-					conn = []string{"user-id", "close+user-id", "keep-alive+user-id", "authorization"}[k]
+					k := rng.Intn(8)
+					conn = []string{"user-id", "close+user-id", "keep-alive+user-id", "authorization", "keep-alive,user-id(no-space)", "close,tab,user-id", "two-fields", "user-id+other"}[k]
 					c.ConnNominated = true
-					c.Fields = append(c.Fields, rawhttp.Field{Name: []string{"Connection", "connection"}[rng.Intn(2)],
-						Value: []string{"X-Inverting-Proxy-User-ID", "close, x-inverting-proxy-user-id", "keep-alive, X-Inverting-Proxy-User-Id", "Authorization"}[k]})
+					name := []string{"Connection", "connection"}[rng.Intn(2)]
+					if k == 6 {
+						c.Fields = append(c.Fields, rawhttp.Field{Name: name, Value: "keep-alive"}, rawhttp.Field{Name: "Connection", Value: "x-inverting-proxy-user-id"})
+					} else {
+						c.Fields = append(c.Fields, rawhttp.Field{Name: name,
+							Value: []string{"X-Inverting-Proxy-User-ID", "close, x-inverting-proxy-user-id", "keep-alive, X-Inverting-Proxy-User-Id", "Authorization",
+								"keep-alive,X-Inverting-Proxy-User-ID", "close ,\tX-INVERTING-PROXY-USER-ID", "", "x-inverting-proxy-user-id , X-Other-" + tok}[k]})
+					}
 				}
 				if c.Shim {
 					c.URLForm = []string{"absolute", "absolute", "userinfo", "path-only", "userinfo-no-password"}[rng.Intn(5)]
